@@ -27,7 +27,7 @@ PROP = "C17"
 TITLE = "Closed-form Coulomb potentials of Gaussian densities are exact everywhere"
 REQUIRED_HOOKS = ["coulomb.coulomb_gaussian_s", "coulomb.coulomb_gaussian_p", "coulomb.coulomb_potential", "coulomb.load_atomic_gaussian_params", "coulomb.load_atomic_gaussian_params:raised"]
 REQUIRED_FAMILIES = ["pinned-p-witness", "pinned-multicentre-p-witness", "single-grid", "single-sweep", "quadrature", "multi-centre", "atomic-core", "load", "load-reject", "load-history"]
-BUDGET = {"quick": 300, "thorough": 1800}
+BUDGET = {"quick": 600, "thorough": 3600}  # idle 16-core expectation: ~8 s / ~75 s per worker; generous because the machine may be heavily shared
 RULE = (
     "Post-conditions on coulomb_gaussian_s/p, coulomb_potential and load_atomic_gaussian_params evaluate every call against an "
     "independent reference (Coulomb integral of the documented density: mp.quad -> validated closed form -> float64). Cases: "
